@@ -695,6 +695,14 @@ class SpecEval(object):
         v = self.ev(n.args[0])
         return CLS(va(val_of(v)))
 
+    def fn_global_object(self, n):
+        """global_object('module:NAME'): a declared module-level object of another module"""
+        from .state import GLOBAL_OBJECTS, global_object_sv
+        q = self.ev(n.args[0])
+        if q not in GLOBAL_OBJECTS:
+            raise SpecError('no declared global object %s' % q)
+        return global_object_sv(q)
+
     def fn_regex_object(self, n):
         """regex_object('module.NAME'): the compiled pattern held in that module / class attribute (same term as the engine uses)"""
         key = self.ev(n.args[0])
